@@ -38,6 +38,9 @@ type C16Case struct {
 	// zero controllers, "foreign" = lists controllers but none of these devices, "mute" = accepts the connection and never
 	// answers. In the last three the LED goroutines never get past their discovery phase.
 	Server string `json:"server,omitempty"`
+	// SlowOutUs > 0: the MIDI output queue of every device has the application's capacity (8) and its reader takes this many
+	// microseconds per message (a MIDI port at hardware speed): a panic burst of 129 messages then spans several LED refresh cycles
+	SlowOutUs int `json:"slow_out_us,omitempty"`
 	// Busy: per device, how long (ms) the reader of its MIDI output is busy when its event stream ends (0 = reads all the time)
 	Busy []int `json:"busy,omitempty"`
 }
@@ -117,7 +120,7 @@ func flatten(ms [][]byte) []string {
 }
 
 func (c *C16Case) busyFor(i int) int {
-	if c.NoServer || i >= len(c.Busy) {
+	if c.NoServer || c.SlowOutUs > 0 || i >= len(c.Busy) {
 		return 0
 	}
 	return c.Busy[i]
@@ -208,7 +211,22 @@ func checkC16(c C16Case) (nontrivial bool, v *Violation) {
 					fan.DespawnOutput(id)
 				}
 			}()
-			ld := startLedDeviceRO(shared, c.D, events[i], i, port, ch)
+			outCap := 65536
+			if c.SlowOutUs > 0 {
+				outCap = 8
+			}
+			ld := startLedDeviceCap(shared, c.D, events[i], i, port, ch, outCap)
+			var slowOut [][]byte
+			slowDone := make(chan struct{})
+			if c.SlowOutUs > 0 {
+				go func() {
+					defer close(slowDone)
+					for m := range ld.out {
+						slowOut = append(slowOut, append([]byte(nil), m...))
+						time.Sleep(time.Duration(c.SlowOutUs) * time.Microsecond)
+					}
+				}()
+			}
 			phase := c.Phase[i]
 			if c.Server != "" && !c.NoServer {
 				phase = "discovery-" + c.Server
@@ -299,7 +317,13 @@ func checkC16(c C16Case) (nontrivial bool, v *Violation) {
 			if err := fan.DespawnOutput(id); err != nil {
 				res[i].problem = violation("C16", "despawn", "", "device %d: %v", i, err)
 			}
-			res[i].out = drain(ld.out)
+			if c.SlowOutUs > 0 {
+				close(ld.out) // processing has ended: nothing may be sent any more (a send now would panic and be reported)
+				<-slowDone
+				res[i].out = slowOut
+			} else {
+				res[i].out = drain(ld.out)
+			}
 		}(i)
 	}
 	wg.Wait()
@@ -336,6 +360,7 @@ func checkC16(c C16Case) (nontrivial bool, v *Violation) {
 			nontrivial = true
 		}
 		classifyIf(res[i].busy && res[i].heldAtCut, "stream ends with notes held while the MIDI output is not being read")
+		classifyIf(c.SlowOutUs > 0, "MIDI output queue of 8 read at hardware speed")
 		if c.Server != "" && !c.NoServer {
 			classify("server state " + c.Server)
 			nontrivial = true
@@ -442,6 +467,9 @@ func genC16(t *rapid.T) C16Case {
 		c.Busy = append(c.Busy, busy)
 		c.Phase = append(c.Phase, rapid.SampledFrom([]string{"before-connect", "during-discovery", "running", "running", "between-frames", "after-key", "after-key"}).Draw(t, "phase"))
 		c.Delay = append(c.Delay, rapid.IntRange(0, 1000).Draw(t, "delay"))
+	}
+	if rapid.IntRange(0, 3).Draw(t, "slowOut") == 0 {
+		c.SlowOutUs = rapid.IntRange(100, 400).Draw(t, "slowOutUs")
 	}
 	c.NoServer = rapid.IntRange(0, 6).Draw(t, "noServer") == 0
 	if !c.NoServer && rapid.IntRange(0, 5).Draw(t, "serverState") == 0 {
